@@ -9,6 +9,8 @@ import Uquic.Proofs.SentTimer
 import Uquic.Proofs.SentSkipped
 import Uquic.Proofs.SentDisc
 import Uquic.Proofs.SentOverdue
+import Uquic.Proofs.SentProbe
+import Uquic.Proofs.SentAcksBin
 
 namespace Uquic.Props.C06
 open Uquic.Model.Sent Uquic.Proofs.Sent List
@@ -150,14 +152,37 @@ theorem ack_of_unsent (s : State) (env : Env) (ranges : List Range) (lvl : Level
   simp only [hg, hh, hl, hgt, if_true]
 
 
+/-- **acks_packet_binary_eq_linear**: for every ACK frame accepted by `wire.AckFrame.validateAckRanges` (every
+    range non-empty, ranges strictly descending with a gap between them — `ValidRanges`), the binary search of
+    `wire.AckFrame.AcksPacket` (`sort.Search`, modelled step for step with its iteration count as fuel:
+    `acksPacketBin`, the function the handler model calls) answers exactly like the linear search "first range
+    whose Smallest ≤ p" (`acksPacket`, the rendering the property statements use), for every packet number and
+    bounds. -/
+theorem acks_packet_binary_eq_linear (ranges : List Range) (hv : ValidRanges ranges) (lowest largest p : PN) :
+    acksPacketBin ranges lowest largest p = acksPacket ranges lowest largest p :=
+  acksPacketBin_eq_linear ranges hv lowest largest p
+
+/-- `f.AckRanges[i]` in `AcksPacket` never indexes out of range, for EVERY list of ranges (validated or not):
+    past the range check `p` is at least `LowestAcked()`, the Smallest of the last range, so `sort.Search`'s
+    predicate holds at the last index and the search stops at or before it. -/
+theorem acks_packet_index_in_range (ranges : List Range) (bot : Range) (hl : ranges.getLast? = some bot) (p : PN)
+    (hp : ¬ p < bot.1) : sortSearch ranges.length (geSmallest ranges p) < ranges.length :=
+  acksPacketBin_index_in_range ranges bot hl p hp
+
+/-- the hypothesis of `acks_packet_binary_eq_linear` is satisfiable by a frame with missing ranges, and the
+    search is not trivial on it: 7 lies in the middle range, 5 in a gap -/
+example : ValidRanges [(10, 12), (7, 8), (1, 3)] ∧ acksPacketBin [(10, 12), (7, 8), (1, 3)] 1 12 7 = true ∧
+    acksPacketBin [(10, 12), (7, 8), (1, 3)] 1 12 5 = false := by
+  refine ⟨⟨by decide, by decide⟩, by decide, by decide⟩
+
 /-- does the ACK with these ranges (wire order) acknowledge packet number `p` -/
 def acks (ranges : List Range) (p : PN) : Bool :=
   match ranges.head?, ranges.getLast? with
   | some top, some bot => acksPacket ranges bot.1 top.2 p
   | _, _ => false
 
-/-- **ack_of_skipped** (full statement): after any history without a Retry, an ACK in the application-data
-    space that covers *any* packet number that was deliberately skipped during that history (and stays
+/-- **ack_of_skipped** (full statement): after any history without a Retry, an ACK (accepted by
+    `validateAckRanges`) in the application-data space that covers *any* packet number that was deliberately skipped during that history (and stays
     within the numbers sent) is answered with PROTOCOL_VIOLATION.
     FALSE on the unchanged tree — see `ack_of_skipped_witness`; `ack_of_skipped_partial` is what holds. -/
 def ack_of_skipped : Prop :=
@@ -165,15 +190,15 @@ def ack_of_skipped : Prop :=
     (ops.all fun x => !Op.isRetry x.1) = true →
     ((State.new pn val client nts).run ops).res = .ok →
     p ∈ ((State.new pn val client nts).run ops).skipped →
-    acks ranges p = true →
+    ValidRanges ranges → acks ranges p = true →
     (∀ top, ranges.head? = some top → top.2 ≤ ((State.new pn val client nts).run ops).s.app.largestSent) →
     (((State.new pn val client nts).run ops).s.receivedAck env ranges .oneRTT now).2.res = .err .ackSkipped
 
-/-- **ack_of_skipped_partial**: an ACK in the application-data space that covers one of the skipped packet
+/-- **ack_of_skipped_partial**: an ACK (accepted by `validateAckRanges`) in the application-data space that covers one of the skipped packet
     numbers the history still *remembers* (the last `maxSkippedPackets`) is answered with
     PROTOCOL_VIOLATION and no callback is made; tracked frames and `bytesInFlight` are untouched. -/
 theorem ack_of_skipped_partial (s : State) (env : Env) (ranges : List Range) (now : Time) (p : PN)
-    (hb : s.ackedBuf = 0) (hp : p ∈ s.app.hist.skipped) (ha : acks ranges p = true)
+    (hb : s.ackedBuf = 0) (hp : p ∈ s.app.hist.skipped) (hv : ValidRanges ranges) (ha : acks ranges p = true)
     (hle : ∀ top, ranges.head? = some top → top.2 ≤ s.app.largestSent) :
     (s.receivedAck env ranges .oneRTT now).2.res = .err .ackSkipped ∧ (s.receivedAck env ranges .oneRTT now).2.evs = [] ∧
     pending (s.receivedAck env ranges .oneRTT now).1 = pending s ∧
@@ -194,7 +219,8 @@ theorem ack_of_skipped_partial (s : State) (env : Env) (ranges : List Range) (no
       generalize s.completeValidation env .oneRTT now = s1 at e1 e2 e3 e4 e5 ⊢
       unfold State.ackCore
       rw [if_neg (by omega)]
-      have hany : s.app.hist.skipped.any (acksPacket ranges bot.1 top.2) = true := List.any_eq_true.mpr ⟨p, hp, ha⟩
+      have hany : s.app.hist.skipped.any (acksPacketBin ranges bot.1 top.2) = true :=
+        List.any_eq_true.mpr ⟨p, hp, by rw [acksPacketBin_eq_linear ranges hv]; exact ha⟩
       simp only [hany, and_self, if_true]
       exact ⟨trivial, trivial, pending_eq e1 e2 e3, e4⟩
 
@@ -234,7 +260,7 @@ theorem witness_ack : (((State.new 0 false true 300).run wOps).s.receivedAck wEn
 theorem ack_of_skipped_witness : ¬ ack_of_skipped := by
   intro h
   have := h 0 false true 300 wOps wEnv.env 8000 [(0, 1)] 1 (by decide) witness_skipped.1
-    (by rw [witness_skipped.2.1]; decide) (by decide) (by intro top ht; simp at ht; subst ht; rw [witness_skipped.2.2.2]; decide)
+    (by rw [witness_skipped.2.1]; decide) ⟨by decide, by decide⟩ (by decide) (by intro top ht; simp at ht; subst ht; rw [witness_skipped.2.2.2]; decide)
   rw [witness_ack] at this
   exact absurd this (by decide)
 
@@ -398,6 +424,117 @@ theorem remembered_last (pn : PN) (val client : Bool) (nts : PN) (ops : List (Op
       lastN maxSkippedPackets ((State.new pn val client nts).run ops).skipped := by
   have := remembered_run ops _ [] (new_SeqGens pn val client nts) (by simp [State.new, Space.new, lastN]) hnr hok
   simpa using this
+
+/-! ### the anti-deadlock probe (RFC 9002 §6.2.2.1; /repo 23a90f5) -/
+
+/-- the error branch `sentPacketHandler BUG: PTO fired, but bytes_in_flight is 0 and Initial and Handshake
+    already dropped` of `OnLossDetectionTimeout` is unreachable: no history whatsoever (no caller contract) ends
+    in it — the anti-deadlock guard (in the shape of the current source, and in the older one) holds only
+    before the peer completed address validation, and until then the Handshake space exists: a server starts
+    with completed validation, a client drops the Handshake space only together with completing it. -/
+theorem pto_bug_branch_unreachable (pn : PN) (val client : Bool) (nts : PN) (ops : List (Op × StepEnv)) :
+    ((State.new pn val client nts).run ops).res ≠ .err .bugPTO :=
+  (run_PInv ops _ (new_PInv pn val client nts)).2
+
+/-- the state in which `getPTOTimeAndSpace` arms the anti-deadlock PTO: handshake not confirmed, no Initial or
+    Handshake packet outstanding, the peer has not completed address validation -/
+def AntiDeadlockArmed (s : State) : Prop :=
+  s.handshakeConfirmed = false ∧ s.hasOutstandingCrypto = false ∧ s.peerCompleted = false
+
+instance (s : State) : Decidable (AntiDeadlockArmed s) := by unfold AntiDeadlockArmed; infer_instance
+
+/-- … and it does arm it: in that state, with no loss timer pending, not amplification limited and no path probe
+    outstanding, `lossDetectionTime` is a PTO alarm one (scaled) PTO from now, for the Initial space (the
+    Handshake space once Initial was dropped) — whatever `bytesInFlight` is. -/
+theorem anti_deadlock_pto_armed (s : State) (env : Env) (now : Time) (ha : AntiDeadlockArmed s)
+    (hl : s.getLossTimeAndSpace.1 = 0) (hamp : s.isAmplificationLimited = false) (hpp : s.pathProbeLossTime = 0)
+    (hnow : 0 ≤ now) :
+    s.lossDetectionTime env now = { time := now + s.getScaledPTO env false, typ := .pto,
+                                    level := if s.initial.isSome then .initial else .handshake } ∧
+    now + s.getScaledPTO env false ≠ 0 := by
+  obtain ⟨hc, ho, hp⟩ := ha
+  have hpos : 0 < s.getScaledPTO env false := by
+    have hm : 0 < maxPTODuration := by decide
+    unfold State.getScaledPTO
+    simp only [Bool.false_eq_true, if_false]
+    split <;> omega
+  have hg : s.getPTOTimeAndSpace env now =
+      (now + s.getScaledPTO env false, if s.initial.isSome then Level.initial else Level.handshake) := by
+    unfold State.getPTOTimeAndSpace
+    simp only [hc, ho, hp]
+    simp
+    split <;> simp_all
+  refine ⟨?_, by omega⟩
+  unfold State.lossDetectionTime
+  rw [if_neg (by simp [hp]), if_neg (by simp [hamp]), if_neg (by simp [hl]), hg, if_pos ⟨by simp only []; omega, Or.inl hpp⟩]
+
+/-- **anti_deadlock_probe_sent**: after ANY history, whenever the loss-detection alarm fires in the state in
+    which `getPTOTimeAndSpace` arms the anti-deadlock PTO (handshake not confirmed, no Initial/Handshake packet
+    outstanding, peer address validation not completed; no loss timer pending), `OnLossDetectionTimeout` returns
+    normally and has queued a probe: `numProbesToSend` and `ptoCount` are one higher, `ptoMode` is SendPTOInitial
+    (SendPTOHandshake once the Initial space was dropped; one of the two spaces exists), and — unless
+    amplification limited or at the tracked-packet cap — `SendMode` then answers that PTO mode WHATEVER the
+    congestion controller and the pacer say.  No hypothesis on `bytesInFlight` (0-RTT packets in flight do not
+    suppress the probe); the guard shape is the regenerated fact `antiDeadlockWhenArmed`. -/
+theorem anti_deadlock_probe_sent (pn : PN) (val client : Bool) (nts : PN) (ops : List (Op × StepEnv))
+    (env : Env) (now : Time) (nts' : PN)
+    (ha : AntiDeadlockArmed ((State.new pn val client nts).run ops).s)
+    (hl : ((State.new pn val client nts).run ops).s.getLossTimeAndSpace.1 = 0) :
+    let s := ((State.new pn val client nts).run ops).s
+    let r := s.onLossDetectionTimeout env now nts'
+    r.2.res = .ok ∧ r.1.numProbesToSend = s.numProbesToSend + 1 ∧ r.1.numProbesToSend > 0 ∧ r.1.ptoCount = s.ptoCount + 1 ∧
+    r.1.ptoMode = (if s.initial.isSome then sendPTOInitial else sendPTOHandshake) ∧
+    (s.initial.isSome = true ∨ s.handshake.isSome = true) ∧ r.1.bytesInFlight = s.bytesInFlight ∧
+    ∀ canSend pacing : Bool, r.1.isAmplificationLimited = false →
+      r.1.app.hist.len + optLen r.1.initial + optLen r.1.handshake < maxTrackedSentPackets →
+      r.1.sendMode canSend pacing = r.1.ptoMode := by
+  intro s r
+  have hw : antiDeadlockWhenArmed = true := by decide
+  have pi : PInv s := (run_PInv ops _ (new_PInv pn val client nts)).1
+  obtain ⟨hc, ho, hp⟩ := ha
+  obtain ⟨e, hh⟩ := timeout_probe_when_armed s env now nts' pi.hs hc ho hp hl
+  have er : r = ((s.antiDeadlockProbe [] []).1.setTimer env now, (s.antiDeadlockProbe [] []).2) := by
+    show s.onLossDetectionTimeout env now nts' = _
+    rw [onLossDetectionTimeout_eq, hw]; exact e
+  obtain ⟨q1, q2, q3, q4, q5, q6, q7, q8, q9, q10, q11⟩ := antiDeadlockProbe_spec s [] [] (Or.inr hh)
+  have hnp : r.1.numProbesToSend = s.numProbesToSend + 1 := by rw [er]; exact q2
+  have hpos : r.1.numProbesToSend > 0 := by have := pi.np; omega
+  refine ⟨by rw [er]; exact q1, hnp, hpos, by rw [er]; exact q3, by rw [er]; exact q4, Or.inr hh, by rw [er]; exact q8, ?_⟩
+  intro canSend pacing hamp ht
+  exact sendMode_probe_pending r.1 canSend pacing hpos hamp ht
+
+/-- the witness history: a client sends its ClientHello (Initial packet 0) and three 0-RTT packets; the
+    server's ACK for the Initial packet arrives (it does not complete address validation), the ACKs for the 0-RTT
+    packets do not (they travel in 1-RTT packets the client cannot read yet) -/
+def adOps : List (Op × StepEnv) :=
+  [(.send .initial 1000 (-1) 1200 false false [⟨1, true⟩] [], wEnv),
+   (.send .zeroRTT 1001 (-1) 1200 false false [] [⟨2, true⟩], wEnv),
+   (.send .zeroRTT 1002 (-1) 1200 false false [] [⟨3, true⟩], wEnv),
+   (.send .zeroRTT 1003 (-1) 1200 false false [] [⟨4, true⟩], wEnv),
+   (.ack .initial 50000000 [(0, 0)], wEnv)]
+
+set_option maxRecDepth 100000 in
+/-- **old_guard_stalls_witness** (kernel-checked): after `adOps` the handler is in the anti-deadlock state with
+    3600 bytes of 0-RTT data in flight and the PTO alarm armed for the Initial space.  When that alarm fires,
+    `OnLossDetectionTimeout` with the guard of BEFORE /repo 23a90f5 (`bytesInFlight == 0 && …`) returns without
+    queueing a probe (numProbesToSend 0, ptoMode SendNone, ptoCount unchanged), re-arms the same kind of alarm,
+    and a congestion-limited `SendMode` answers SendAck: the ClientHello retransmission / Finished is never
+    sent and the timer keeps firing.  With the guard of the current source the same call queues a probe and
+    `SendMode` answers SendPTOInitial although the congestion controller says no. -/
+theorem old_guard_stalls_witness :
+    let run := (State.new 0 false true 300).run adOps
+    let s := run.s
+    let old := s.onLossDetectionTimeoutG false wEnv.env s.alarm.time 300
+    let new := s.onLossDetectionTimeoutG true wEnv.env s.alarm.time 300
+    run.res = .ok ∧ AntiDeadlockArmed s ∧ s.getLossTimeAndSpace.1 = 0 ∧ s.bytesInFlight = 3600 ∧
+    s.alarm = { time := 250000000, typ := .pto, level := .initial } ∧
+    old.2.res = .ok ∧ old.1.numProbesToSend = 0 ∧ old.1.ptoMode = sendNone ∧ old.1.ptoCount = s.ptoCount ∧
+    old.1.alarm = { time := 450000000, typ := .pto, level := .initial } ∧ old.1.sendMode false true = sendAck ∧
+    new.2.res = .ok ∧ new.1.numProbesToSend = 1 ∧ new.1.ptoMode = sendPTOInitial ∧
+    new.1.sendMode false true = sendPTOInitial := by decide
+
+/-- the current source has the guard `anti_deadlock_probe_sent` is about (regenerated shape fact) -/
+theorem anti_deadlock_guard_is_when_armed : antiDeadlockWhenArmed = true := by decide
 
 /-! ### examples: the hypotheses are satisfiable by non-trivial histories -/
 
